@@ -199,10 +199,19 @@ func main() {
 	for _, inf := range infos {
 		sort.Strings(inf.hosts)
 	}
-	// simplest first
+	// simplest first; the cuts-only programs after the fully enumerated ones
 	sort.SliceStable(progs, func(i, j int) bool {
+		if progs[i].cutsOnly != progs[j].cutsOnly {
+			return !progs[i].cutsOnly
+		}
 		return len(infos[progs[i].name].alphabet) < len(infos[progs[j].name].alphabet)
 	})
+	nFull := 0
+	for _, p := range progs {
+		if !p.cutsOnly {
+			nFull++
+		}
+	}
 	if *flagDump {
 		for _, p := range progs {
 			inf := infos[p.name]
@@ -214,7 +223,7 @@ func main() {
 	}
 
 	// ---- phase B: every single fault --------------------------------------------
-	nSingle := len(progs)
+	nSingle := nFull
 	if !r.Thorough() && nSingle > 3 {
 		nSingle = 3
 	}
@@ -249,6 +258,20 @@ func main() {
 		}
 		progSizes[p.name] = len(singles) - n0
 	}
+	// skewed shuffles (both tiers): cuts of every task-to-task read
+	for _, p := range progs[nFull:] {
+		inf := infos[p.name]
+		n0 := len(singles)
+		for _, f := range cutPoints(inf) {
+			for _, m := range modes {
+				c := fcase{ID: id, Prog: p.name, Mode: m, Faults: []vsys.Fault{f}}
+				id++
+				singles = append(singles, c)
+				singleByID[c.ID] = c
+			}
+		}
+		progSizes[p.name] = len(singles) - n0
+	}
 	// machines lost while booting (at their first Worker.FuncLocations call):
 	// the j-th machine started, j = 1..cluster size+1, and the first 2 and the
 	// first 3 machines together; quick: smallest program, thorough: two smallest
@@ -257,7 +280,7 @@ func main() {
 		nBoot = 2
 	}
 	bootCases := 0
-	for _, p := range progs[:min(nBoot, len(progs))] {
+	for _, p := range progs[:min(nBoot, nFull)] {
 		n := len(infos[p.name].hosts)
 		var sets [][]int
 		for j := 1; j <= n+1; j++ {
@@ -285,7 +308,7 @@ func main() {
 		var pairs []fcase
 		seenPair := map[string]bool{}
 		small := map[string]bool{}
-		for _, p := range progs[:min(2, len(progs))] {
+		for _, p := range progs[:min(2, nFull)] {
 			small[p.name] = true
 		}
 		var ids []int
@@ -321,6 +344,7 @@ func main() {
 		"quick: 3 smallest programs, thorough: all 6 plus, for the two smallest, every pair (fired single fault, fault at the first call to a live machine of every method:task/partition in the history observed after it fired); each case = Run + complete scan in a child process. "+
 		"A case is non-trivial iff every configured fault fired (its label occurred in that run and the victim existed); cases that do not fire are retried up to %d times and are not evidence. "+
 		"Worker.Run/Compile/Stat additionally get the variant replylate (handler ran, machine dies, the successful reply is delivered only after the driver has seen the machine stop). "+
+		"Two skewed-shuffle programs (map shards with disjoint ordered key ranges feeding a Reduce / a Cogroup, several chunks per stream; both tiers): every task-to-task Worker.Read x {before, after, afterreply, reply cut at byte 0, at the end and in the middle of every encoded batch, at the last byte}, victim = the machine serving the read. "+
 		"Machines lost while booting: the j-th machine started (j = 1..cluster size+1) and the first 2 / first 3 machines together are killed at their first Worker.FuncLocations call {before, after} x {M1, M2} (quick: smallest program, thorough: two smallest); fired iff every named machine existed and was killed there. "+
 		"Both tiers also run 2 spaced-losses histories under the production limit (M2S; producer f with 1 and with 2 shards): r=Run(f), then %d rounds of {kill every live machine while idle, wait until r's tasks are LOST, Run(g,r)+scan while the replacement receiving Worker.Run for r's shard-0 task is killed once}; every round must succeed with the reference rows; a history is non-trivial iff all rounds ran and both kills happened in each. "+
 		"distinct_nontrivial = distinct (program, label, variant[, other-victim]) over fired single faults + distinct fired pairs + complete spaced-losses histories + distinct fired boot-loss cases (program, machines, variant)", nFreeRuns, maxAttempts, spacedRounds)
@@ -411,6 +435,39 @@ func readVariants(n int, bounds []int, all bool) []string {
 		add(b)
 	}
 	return vs
+}
+
+// cutPoints: for a cuts-only program, every Worker.Read between tasks (not the
+// final scan) x {before, after, afterreply, reply cut at byte 0, at the end of
+// every encoded batch, in the middle of every batch, at the last byte}; the
+// victim is the machine serving the read.
+func cutPoints(inf *progInfo) []vsys.Fault {
+	var out []vsys.Fault
+	for _, l := range inf.alphabet {
+		if methodOf(l) != "Worker.Read" || inf.scanOnly[l] {
+			continue
+		}
+		n := inf.readLen[stripOcc(l)]
+		vars := []string{"before", "after", "afterreply", "mid:0"}
+		add := func(k int) {
+			v := fmt.Sprintf("mid:%d", k)
+			if k > 0 && k < n && !contains(vars, v) {
+				vars = append(vars, v)
+			}
+		}
+		prev := 0
+		for _, b := range inf.bounds[stripOcc(l)] {
+			add((prev + b) / 2)
+			add(b)
+			prev = b
+		}
+		add(n / 2)
+		add(n - 1)
+		for _, v := range vars {
+			out = append(out, vsys.Fault{Label: l, Variant: v})
+		}
+	}
+	return out
 }
 
 // singlePoints enumerates the fault points of a program from its alphabet.
